@@ -1,0 +1,89 @@
+//go:build verif
+// +build verif
+
+package leveldb
+
+import (
+	"github.com/syndtr/goleveldb/leveldb/table"
+)
+
+// VerifBuffers are the DB-side buffers a result or a retained argument could alias: the key/value arenas of
+// the live and frozen write buffers and the buffers of all blocks the block cache holds. The slices are the
+// real buffers over their full capacity (not copies); the harness only compares addresses.
+type VerifBuffers struct {
+	MemLive   []byte
+	MemFrozen []byte
+	Blocks    [][]byte
+}
+
+// VerifAliasBuffers enumerates the DB-side buffers (see VerifBuffers).
+func VerifAliasBuffers(db *DB) (vb VerifBuffers) {
+	em, fm := db.getMems()
+	if em != nil {
+		vb.MemLive = em.DB.VerifKVData()
+		em.decref()
+	}
+	if fm != nil {
+		vb.MemFrozen = fm.DB.VerifKVData()
+		fm.decref()
+	}
+	if bc := db.s.tops.blockCache; bc != nil {
+		for _, v := range bc.VerifValues() {
+			if d, ok := table.VerifBlockData(v); ok {
+				vb.Blocks = append(vb.Blocks, d)
+			}
+		}
+	}
+	return
+}
+
+// VerifTxnMem returns the key/value arena of the transaction's write buffer (nil once closed).
+func VerifTxnMem(tr *Transaction) []byte {
+	tr.lk.RLock()
+	defer tr.lk.RUnlock()
+	if tr.closed || tr.mem == nil || tr.mem.DB == nil {
+		return nil
+	}
+	return tr.mem.DB.VerifKVData()
+}
+
+// VerifBlockCacheStats returns the block cache's hit and miss counters, node count and size
+// (all zero when the block cache is disabled).
+func VerifBlockCacheStats(db *DB) (hit, miss int64, nodes, size int) {
+	bc := db.s.tops.blockCache
+	if bc == nil {
+		return
+	}
+	st := bc.GetStats()
+	return st.HitCount, st.MissCount, bc.Nodes(), bc.Size()
+}
+
+// VerifHasFrozenMem tells whether a frozen write buffer currently exists.
+func VerifHasFrozenMem(db *DB) bool {
+	fm := db.getFrozenMem()
+	if fm == nil {
+		return false
+	}
+	fm.decref()
+	return true
+}
+
+// VerifMemFree returns the free space of the live write buffer (-1 if there is none).
+func VerifMemFree(db *DB) int {
+	m := db.getEffectiveMem()
+	if m == nil {
+		return -1
+	}
+	defer m.decref()
+	return m.Free()
+}
+
+// VerifTxnMemEntries returns the entries of the transaction's write buffer (nil once closed).
+func VerifTxnMemEntries(tr *Transaction) []VerifEntry {
+	tr.lk.RLock()
+	defer tr.lk.RUnlock()
+	if tr.closed || tr.mem == nil || tr.mem.DB == nil {
+		return nil
+	}
+	return verifMemEntries(tr.mem.DB)
+}
